@@ -272,6 +272,32 @@ fn main() {
                 }
             }
         }
+        "time-vm" => {
+            // diagnostic: where does the time go for a raw fz_vm input (first byte = heap selector)
+            let b = std::fs::read(&args[2]).expect("cannot read file");
+            let code = &b[1..];
+            let ops = mv::refvm::decode(code).expect("does not decode");
+            println!("{} instructions, {} bytes; reference weight {}", ops.len(), code.len(), mv::refvm::weight(&ops));
+            let real_ops: Vec<_> = ops.iter().map(mv::refvm::to_real_op).collect();
+            let cov = melvm::Covenant::from_ops(&real_ops);
+            let t = Instant::now();
+            let w = cov.weight();
+            println!("real weight {} in {:?}", w, t.elapsed());
+            let t = Instant::now();
+            let r = std::thread::Builder::new().stack_size(256 << 20).spawn(move || cov.debug_execute(&[]).is_some()).unwrap().join();
+            println!("real execution -> {:?} in {:?}", r.ok(), t.elapsed());
+            let t = Instant::now();
+            let mut ex = mv::refvm::RefExec::new(&ops, Default::default());
+            let rr = ex.run(10_000_000);
+            println!("reference execution -> {} steps, {} in {:?}", ex.steps, match rr { mv::refvm::RunEnd::Budget => "budget", mv::refvm::RunEnd::Fail => "fail", mv::refvm::RunEnd::Done(_) => "done" }, t.elapsed());
+            let mut st = evidence::Stats::default();
+            let t = Instant::now();
+            let r1 = mon::c10::check_program(&ops, &[], &mut st).is_ok();
+            println!("C10 check_program ok={} in {:?}", r1, t.elapsed());
+            let t = Instant::now();
+            let r2 = mon::c11::check_cost(&ops, &mut st).is_ok();
+            println!("C11 check_cost ok={} in {:?}", r2, t.elapsed());
+        }
         "exec-plan" => {
             // child side of C03's cross-process comparison: run a plan, print what happened as JSON
             if args.len() < 4 {
